@@ -466,6 +466,19 @@ func genDistrUpd(g *Gen, n int) {
 		g.emit("d.setparams")
 		g.emit("d.params")
 		mainAddr := authtypes.NewModuleAddress(distrtypes.DistributorMainAccount).String()
+		if sc%3 == 2 {
+			// directed shape: share names must be unique across the whole list INCLUDING the implicit
+			// "<name>_primary" names - here an earlier sub-distributor uses a later one's primary name
+			g.emit("d.new")
+			g.emit("d.sub alpha 0 %s", gAcc{distrtypes.ModuleAccount, "green_energy_booster_collector"}.tok())
+			g.emit("d.src %s", gAcc{distrtypes.Main, ""}.tok())
+			g.emit("d.share %s 100000000000000000 %s", g.pick("beta_primary", "alpha_primary"), gAcc{distrtypes.ModuleAccount, "governance_booster_collector"}.tok())
+			g.emit("d.sub beta 0 %s", gAcc{distrtypes.ModuleAccount, "validators_rewards_collector"}.tok())
+			g.emit("d.src %s", gAcc{distrtypes.Main, ""}.tok())
+			g.emit("d.update full gov")
+			g.emit("d.params")
+			g.count("shape/primary-name-clash")
+		}
 		for i := 0; i < 3+g.intn(8); i++ {
 			auth := g.pick("gov", "gov", "gov", "gov", "other", "empty", "garbage")
 			switch g.intn(6) {
